@@ -140,6 +140,7 @@ type Exec struct {
 	Backward bool
 	Poisoned bool
 	Notes    []string // known-finding predicates that became true ("F4", ...)
+	Sticky   []string
 
 	// OnBoundary is called after commit, rollback, failed commit and reopen with the kind of boundary.
 	OnBoundary func(x *Exec, kind string) *Fail
@@ -150,7 +151,13 @@ type Exec struct {
 	PrevCommitted *refmodel.Node // model before the most recent successful commit
 	PreImage      []byte         // file content when the current/most recent write tx began (if KeepPre)
 	KeepPre       bool
-	TxLogStart    int    // index into Tap.Log where the current/most recent write tx began
+	TxLogStart    int // index into Tap.Log where the current/most recent write tx began
+	Fault         *Fault
+	LastFault     string
+	Probe         []bolt.VerifOp
+	probing       bool
+	Unmapped      bool // a failed mmap left the database unmapped (until reopen)
+	Consumed      bool
 	LastKind      string // kind of the most recent boundary
 	opening       bool
 
@@ -214,6 +221,7 @@ func (x *Exec) ValBytes(class string) []byte {
 // (nil = empty database).
 func NewExec(path string, cfg Cfg, model *refmodel.Node) (*Exec, *Fail) {
 	x := &Exec{Path: path, Cfg: cfg, CheckLvl: 1, Backward: true, Tap: &Tap{}}
+	x.Tap.OnIO = append(x.Tap.OnIO, x.faultHandler)
 	SetTap(x.Tap)
 	if model == nil {
 		model = refmodel.New()
@@ -433,6 +441,8 @@ func (x *Exec) Do(op Op) (f *Fail) {
 			}
 		}
 		return x.boundary("commit")
+	case "commitF":
+		return x.commitWithFault(op, idx)
 	case "rollback":
 		if x.W == nil {
 			return mm("harness: no write tx")
@@ -495,6 +505,7 @@ func (x *Exec) Do(op Op) (f *Fail) {
 		if f := x.open(cfg); f != nil {
 			return f
 		}
+		x.Unmapped = false
 		if x.CommittedID < before || x.CommittedID > before+1 {
 			return mm("txid after reopen %d, before %d", x.CommittedID, before)
 		}
@@ -746,6 +757,21 @@ func (x *Exec) dirtyBelow(n *refmodel.Node) bool {
 		}
 	}
 	return false
+}
+
+// AllNotes returns the known-finding predicates that hold for this execution: those of the current write
+// transaction and the sticky ones (which outlive the transaction that raised them).
+func (x *Exec) AllNotes() []string {
+	return append(append([]string{}, x.Sticky...), x.Notes...)
+}
+
+func (x *Exec) stick(s string) {
+	for _, n := range x.Sticky {
+		if n == s {
+			return
+		}
+	}
+	x.Sticky = append(x.Sticky, s)
 }
 
 func (x *Exec) note(s string) {
